@@ -15,6 +15,8 @@ macro_rules! with_check {
         match $id {
             "C01" => $f::<props::c01::C01>($($arg),*),
             "C02" => $f::<props::c02::C02>($($arg),*),
+            "C05" => $f::<props::c05::C05>($($arg),*),
+            "C06" => $f::<props::c06::C06>($($arg),*),
             other => {
                 eprintln!("unknown check {other}");
                 std::process::exit(2);
